@@ -1133,6 +1133,88 @@ fn float_reply_sweep(cx: &mut Ctx, rng: &mut Rng, n: u64) {
     }
 }
 
+/// a Lua FLOAT as a redis.call argument (`parse_multivalue_to_bytes`: `n.to_string()`): the double reaches the script
+/// byte-exactly through ARGV + string.unpack, is handed to SET as a NUMBER, and the stored bytes are compared with the
+/// model's `fmtF64` (`LF` op).  Oracle: the stored text parses back to the very same double (lossless), NaN / inf apart.
+fn float_arg_sweep(cx: &mut Ctx, rng: &mut Rng, n: u64) {
+    let mut vals: Vec<u64> = vec![
+        0.1f64.to_bits(), 0.5f64.to_bits(), 3.7f64.to_bits(), (-3.7f64).to_bits(), 5f64.to_bits(), 1e20f64.to_bits(), 1e21f64.to_bits(), 1e22f64.to_bits(), 1e23f64.to_bits(),
+        1e-7f64.to_bits(), 1e-5f64.to_bits(), 123456.789f64.to_bits(), (1.0f64 / 3.0).to_bits(), 2.5e-320f64.to_bits(), 0f64.to_bits(), (-0f64).to_bits(),
+        f64::INFINITY.to_bits(), f64::NEG_INFINITY.to_bits(), f64::NAN.to_bits(), 0xfff8000000000001, 1, 2, 0x000fffffffffffff, 0x0010000000000000, 0x0010000000000001,
+        f64::MAX.to_bits(), f64::MIN.to_bits(), f64::MIN_POSITIVE.to_bits(), f64::EPSILON.to_bits(), 9007199254740993f64.to_bits(), 0.30000000000000004f64.to_bits(),
+        5e-324f64.to_bits(), 1.7976931348623157e308f64.to_bits(), 4.35f64.to_bits(), 0.285f64.to_bits(), 9.5367431640625e-7f64.to_bits(), 2f64.powi(-20).to_bits(),
+    ];
+    // binade boundaries (the rounding interval is asymmetric there) and their neighbours
+    for e in [1u64, 2, 52, 53, 54, 1000, 1022, 1023, 1024, 1075, 1076, 1100, 2000, 2046] {
+        for d in [-1i64, 0, 1] { vals.push(((e << 52) as i64 + d) as u64); }
+    }
+    for base in [9007199254740992f64, 1e15, 1e16, 1e17, 0.001, 1024.0] {
+        let b = base.to_bits();
+        for d in [-2i64, -1, 0, 1, 2] { vals.push((b as i64 + d) as u64); vals.push(((b as i64 + d) as u64) | (1u64 << 63)); }
+    }
+    for _ in 0..n {
+        let exp = match rng.below(5) { 0 => rng.range(1000, 1050), 1 => rng.range(1070, 1100), 2 => rng.below(2047), 3 => rng.below(3), _ => rng.range(960, 1030) };
+        let mant = match rng.below(4) { 0 => rng.below(16), 1 => ((1u64 << 52) - 1) - rng.below(16), _ => rng.next() & ((1u64 << 52) - 1) };
+        vals.push((rng.below(2) << 63) | (exp << 52) | mant);
+    }
+    for bits in vals {
+        let x = f64::from_bits(bits);
+        let mut ex = CommandExecutor::new();
+        let r = eval(&mut ex, "local x = (string.unpack('<d', ARGV[1])) redis.call('SET', 'fa', x) return redis.call('GET', 'fa')", &vec![x.to_le_bytes().to_vec()]);
+        let line = match &r { Ok(RespValue::BulkString(Some(b))) => format!("${}", hex(b)), Ok(v) => show_resp(v), Err(()) => "crash".to_string() };
+        cx.out.op(format!("LF {:016x}", bits), line.clone());
+        cx.out.count("float-argument");
+        if let Ok(RespValue::BulkString(Some(b))) = &r {
+            let text = String::from_utf8_lossy(b).to_string();
+            let back = text.parse::<f64>().ok();
+            let lossless = match back { Some(y) => (x.is_nan() && y.is_nan()) || y.to_bits() == bits, None => false };
+            if !lossless {
+                cx.out.violation("C16:lua:float-argument-not-lossless", "a Lua float handed to redis.call as an argument does not reach the command as a text that denotes the same double", json!({"bits": format!("{:016x}", bits), "stored": text}));
+            }
+        } else {
+            cx.out.violation("C16:lua:float-argument-refused", "a Lua float handed to redis.call('SET', k, x) is not stored as a string", json!({"bits": format!("{:016x}", bits), "reply": line}));
+        }
+        cx.out.case(&format!("LF {:016x}", bits), x.fract() != 0.0);
+    }
+}
+
+/// what a script can call: the fields of the `redis` table (the model knows `call` and `pcall` — `redis.error_reply`,
+/// `status_reply`, `sha1hex`, `log`, `setresp`, `breakpoint` … do not exist in this code); a field that appears is an entry
+/// path nobody drives
+fn redis_table_fields(cx: &mut Ctx) {
+    let mut ex = CommandExecutor::new();
+    let r = eval(&mut ex, "local t = {} for k, v in pairs(redis) do t[#t + 1] = tostring(k) .. ':' .. type(v) end table.sort(t) return t", &vec![]);
+    let got: Vec<String> = match &r { Ok(RespValue::Array(Some(xs))) => xs.iter().filter_map(|x| match x { RespValue::BulkString(Some(b)) => Some(String::from_utf8_lossy(b).to_string()), _ => None }).collect(), _ => vec!["?".to_string()] };
+    cx.out.count("redis-table-fields");
+    for f in &got {
+        if f != "call:function" && f != "pcall:function" {
+            cx.out.violation(&format!("C16:coverage:redis-table-field-not-driven:{}", f), "the `redis` table a script sees has a field the harness does not drive (the model of execute_lua_script knows redis.call and redis.pcall)", json!({"fields": got}));
+        }
+    }
+    for want in ["call:function", "pcall:function"] {
+        if !got.iter().any(|f| f == want) {
+            cx.out.violation(&format!("C16:lua:redis-table-field-missing:{}", want), "redis.call / redis.pcall is not a function of the `redis` table", json!({"fields": got}));
+        }
+    }
+    // the functions Redis has and this code has not: calling one ends the script with a Lua error (observation: which
+    // error), never with a silent nil result
+    let mut obs = Vec::new();
+    for f in ["error_reply('ERR x')", "status_reply('OK')", "sha1hex('')", "log(0, 'x')"] {
+        let mut ex = CommandExecutor::new();
+        let r = eval(&mut ex, &format!("return redis.{}", f), &vec![]);
+        let line = r.as_ref().map(show_resp).unwrap_or("crash".to_string());
+        if !matches!(r, Ok(RespValue::Error(_))) {
+            cx.out.violation(&format!("C16:coverage:redis-table-field-not-driven:{}", f.split('(').next().unwrap_or(f)), "a function of the `redis` table that the model does not know answers something other than a Lua error: it exists now and is not driven", json!({"call": f, "reply": line}));
+        }
+        obs.push(json!({"call": format!("redis.{}", f), "reply": unhex_show(&line)}));
+    }
+    cx.out.extra.insert("redis_table".into(), json!({"fields": got, "absent_functions_observed": obs}));
+}
+
+fn unhex_show(line: &str) -> String {
+    match line.strip_prefix("-x") { Some(h) => format!("-{}", String::from_utf8_lossy(&(0..h.len()).step_by(2).filter_map(|i| u8::from_str_radix(h.get(i..i + 2)?, 16).ok()).collect::<Vec<u8>>())), None => line.to_string() }
+}
+
 /// integer literals: `str::parse::<i64 / u64 / u32>` against `parseI64` / `parseUnsigned` (accepted language,
 /// value and — unsigned — the error kind), on the boundary numerals and on random strings over the alphabet
 /// that matters (digits, signs, the characters other number syntaxes use)
@@ -1316,6 +1398,18 @@ fn luaconv(cx: &mut Ctx, rng: &mut Rng, n: u64) {
             obs.push(json!({"script": format!("return {}", lit), "reply": show_resp(&got)}));
         }
         cx.out.extra.insert("lua_table_shapes_observed".into(), json!(obs));
+        // the shapes Redis documents an answer for: `err` is looked at before `ok`, array part up to the first nil,
+        // floats inside tables truncated
+        for (lit, want) in [("{ok='a', err='b'}", "-x62"), ("{err='x', 1, 2}", "-x78"), ("{ok='fine', 1, 2}", "+x66696e65"), ("{1, 2, nil, 4}", "*2 :1 :2"), ("{[1]=1, [3]=3}", "*1 :1"), ("{1.5, 2.5}", "*2 :1 :2"),
+                            ("{{1, {2, {3}}}, 'x'}", "*2 *2 :1 *2 :2 *1 :3 $x78"), ("{true, false, 7}", "*3 :1 $- :7"), ("{n=3, 1}", "*1 :1")] {
+            let mut ex = CommandExecutor::new();
+            let got = eval(&mut ex, &format!("return {}", lit), &vec![]).unwrap_or(RespValue::err("crash"));
+            cx.out.count("l2r:documented-shape");
+            if show_resp(&got) != want {
+                cx.out.violation("C16:lua:script-result-conversion", "a table returned by a script is not converted as Redis documents (err before ok, array part up to the first nil, numbers truncated)",
+                    json!({"script": format!("return {}", lit), "reply": show_resp(&got), "redis_documented": want}));
+            }
+        }
     }
     // non-integral float: outside the model's value class, oracle only
     {
@@ -1425,6 +1519,9 @@ fn arm_literals(path: &str) -> BTreeMap<String, BTreeSet<String>> {
 /// the source tree this binary was BUILT against (the `redis-sim` path dependency of harness/Cargo.toml),
 /// not a hard-coded /repo
 fn repo_dir() -> String {
+    // self-tests of the source translator only (harmless rewrites of the source TEXT against the unchanged binary):
+    // the override is recorded in the evidence (`shape.repo`)
+    if let Ok(d) = std::env::var("VERIF_C16_SRC_OVERRIDE") { if !d.is_empty() { return d; } }
     const MANIFEST: &str = include_str!("../Cargo.toml");
     for line in MANIFEST.lines() {
         if line.trim_start().starts_with("redis-sim") {
@@ -1680,15 +1777,55 @@ fn scan_source(path: &str, start: Option<&str>, end: Option<&str>, arm_indent: u
     g
 }
 
+/// command names and the words matched inside each arm, from the shape translator's rows (token based: indifferent to
+/// indentation, line breaks, renamed locals and arms moved into a private helper)
+fn grammar_of_rows(ex: &shape::Extracted) -> SourceGrammar {
+    let mut g = SourceGrammar::default();
+    for f in &ex.families {
+        if let Some(n) = f.get("name") {
+            g.names.insert(n.clone());
+            let e = g.kws.entry(n.clone()).or_default();
+            for w in f.get("subwords").map(|w| w.split(',').filter(|x| !x.is_empty()).map(|x| x.to_string()).collect::<Vec<_>>()).unwrap_or_default() {
+                if is_word(&w) { e.insert(w); }
+            }
+        }
+    }
+    for r in &ex.rows {
+        let name = r.get("name").cloned().unwrap_or_default();
+        let (top, sub) = match name.split_once('.') { Some((a, b)) => (a.to_string(), Some(b.to_string())), None => (name.clone(), None) };
+        g.names.insert(top.clone());
+        let e = g.kws.entry(top).or_default();
+        if let Some(sw) = sub { if is_word(&sw) { e.insert(sw); } }
+        for w in r.get("words").map(|w| w.split(',').filter(|x| !x.is_empty()).map(|x| x.to_string()).collect::<Vec<_>>()).unwrap_or_default() {
+            if is_word(&w) { e.insert(w); }
+        }
+    }
+    g
+}
+
 fn shape_of(name: &str) -> Option<&'static Shape> {
     SHAPES.iter().find(|s| s.name == name)
 }
 
 fn source_enumeration(cx: &mut Ctx) {
     let dir = repo_dir();
-    let sim = scan_source(&format!("{}/src/redis/parser.rs", dir), None, Some("fn extract_string"), 20);
-    let zc = scan_source(&format!("{}/src/redis/commands.rs", dir), None, Some("fn extract_string_zc"), 20);
-    let lua = scan_source(&format!("{}/src/redis/executor/script_ops.rs", dir), Some("fn parse_lua_command_bytes"), Some("fn lua_to_resp"), 12);
+    // names and words come from the token-based shape translator (indifferent to indentation, line breaks, renamed
+    // locals, arms moved into a private helper); the older indentation-based scanner is kept as a debugging aid
+    let read = |rel: &str| std::fs::read_to_string(format!("{}/{}", dir, rel)).unwrap_or_default();
+    let types = shape::field_types(&read("src/redis/command.rs"));
+    let sim = grammar_of_rows(&shape::extract(&read("src/redis/parser.rs"), "from_resp", shape::Style::Resp, &types));
+    let zc = grammar_of_rows(&shape::extract(&read("src/redis/commands.rs"), "from_resp_zero_copy", shape::Style::Resp, &types));
+    let lua = grammar_of_rows(&shape::extract(&read("src/redis/executor/script_ops.rs"), "parse_lua_command_bytes", shape::Style::Lua, &types));
+    if std::env::var("VERIF_C16_DEBUG_SCAN").is_ok() {
+        let o_sim = scan_source(&format!("{}/src/redis/parser.rs", dir), None, Some("fn extract_string"), 20);
+        let o_zc = scan_source(&format!("{}/src/redis/commands.rs", dir), None, Some("fn extract_string_zc"), 20);
+        let o_lua = scan_source(&format!("{}/src/redis/executor/script_ops.rs", dir), Some("fn parse_lua_command_bytes"), Some("fn lua_to_resp"), 12);
+        for (tag, old, new) in [("sim", &o_sim, &sim), ("zc", &o_zc, &zc), ("lua", &o_lua, &lua)] {
+            eprintln!("SCAN {} names equal: {} kws equal: {}", tag, old.names == new.names, old.kws == new.kws);
+            for n in old.names.symmetric_difference(&new.names) { eprintln!("  name {}", n); }
+            for (k, v) in &old.kws { if new.kws.get(k) != Some(v) { eprintln!("  kws {} old {:?} new {:?}", k, v, new.kws.get(k)); } }
+        }
+    }
     if sim.names.len() < 60 || zc.names.len() < 60 || lua.names.len() < 20 {
         cx.out.violation("C16:coverage:source-scan-failed", "the match arms of the three grammars could not be enumerated from the source (layout changed?): the coverage of command names is no longer derived from the source",
             json!({"repo": dir, "from_resp_arms": sim.names.len(), "zero_copy_arms": zc.names.len(), "translator_arms": lua.names.len()}));
@@ -1812,17 +1949,39 @@ fn shape_check(cx: &mut Ctx) {
     cx.out.op("DF".to_string(), model_default.clone());
     let dir = repo_dir();
     let read = |rel: &str| std::fs::read_to_string(format!("{}/{}", dir, rel)).unwrap_or_default();
-    let sim = shape::extract(&read("src/redis/parser.rs"), "from_resp", shape::Style::Resp);
-    let zc = shape::extract(&read("src/redis/commands.rs"), "from_resp_zero_copy", shape::Style::Resp);
-    let lua = shape::extract(&read("src/redis/executor/script_ops.rs"), "parse_lua_command_bytes", shape::Style::Lua);
+    let types = shape::field_types(&read("src/redis/command.rs"));
+    let sim = shape::extract(&read("src/redis/parser.rs"), "from_resp", shape::Style::Resp, &types);
+    let zc = shape::extract(&read("src/redis/commands.rs"), "from_resp_zero_copy", shape::Style::Resp, &types);
+    let lua = shape::extract(&read("src/redis/executor/script_ops.rs"), "parse_lua_command_bytes", shape::Style::Lua, &types);
     if sim.rows.len() < 100 || zc.rows.len() < 100 || lua.rows.len() < 30 || sim.families.len() < 5 {
         cx.out.violation("C16:source:shape-scan-failed", "the match arms of the three grammars could not be translated into shape descriptors (layout changed?): the shape table is no longer compared with the source",
             json!({"repo": dir, "from_resp_rows": sim.rows.len(), "zero_copy_rows": zc.rows.len(), "translator_rows": lua.rows.len(), "families": sim.families.len(), "problems": [sim.problems, zc.problems, lua.problems]}));
         return;
     }
+    // the three tables REGENERATED from the source as a Lean file: `./check` elaborates it after the run (the
+    // regenerated tables against each other, against the hand-written model, and the theorems of Props/C16Src.lean
+    // instantiated on them)
+    let names = |tag: &str| -> Vec<String> { model[tag].iter().map(|r| r.get("name").cloned().unwrap_or_default()).collect() };
+    let (lean_text, unprinted) = shape::lean_file(&dir, &sim, &zc, &lua, &names("R"), &names("L"), &names("F"));
+    if let Err(e) = std::fs::write(cx.out.dir.join("GrammarSrcGen.lean"), &lean_text) {
+        cx.out.violation("C16:source:regenerated-table-not-written", "the Lean file with the regenerated grammar tables could not be written", json!({"error": e.to_string()}));
+    }
+    for u in &unprinted {
+        if !u.contains('?') {
+            cx.out.violation(&format!("C16:source:shape-not-printable:{}", u), "a field of a translated shape row has a form the Lean printer of the regenerated tables does not know", json!({"row_field": u}));
+        }
+    }
+    cx.out.extra.insert("regenerated_tables".into(), json!({"file": "GrammarSrcGen.lean", "bytes": lean_text.len(), "rows_not_printed": unprinted}));
     const FIELDS: &[&str] = &["arity", "aerr", "ctor", "slots", "opt", "tail", "opts", "unk", "flits", "checks"];
     let by_name = |rows: &[shape::Row]| -> BTreeMap<String, shape::Row> { rows.iter().map(|r| (r.get("name").cloned().unwrap_or_default(), r.clone())).collect() };
     let mut unrecognised: BTreeSet<String> = BTreeSet::new();
+    // the construct the translator could not read, per command (named in the report)
+    let mut construct: BTreeMap<String, String> = BTreeMap::new();
+    for (g, ex) in [("from_resp", &sim), ("from_resp_zero_copy", &zc), ("parse_lua_command_bytes", &lua)] {
+        for r in &ex.rows {
+            if let (Some(n), Some(w)) = (r.get("name"), r.get("why")) { construct.entry(n.clone()).or_default().push_str(&format!("[{}] {} ", g, w)); }
+        }
+    }
     let mut compared = 0u64;
     // (i) the two RESP parsers, every field (also the source-only ones: all literals, compared words, conditions)
     let (a, b) = (by_name(&sim.rows), by_name(&zc.rows));
@@ -1830,6 +1989,7 @@ fn shape_check(cx: &mut Ctx) {
         match (a.get(n), b.get(n)) {
             (Some(x), Some(y)) => {
                 for (f, vx) in x {
+                    if f == "why" { continue; }
                     let vy = y.get(f).cloned().unwrap_or_default();
                     if (vx.contains('?') || vy.contains('?')) && FIELDS.contains(&f.as_str()) {
                         unrecognised.insert(format!("parsers:{}:{}", n, f));
@@ -1936,8 +2096,10 @@ fn shape_check(cx: &mut Ctx) {
     const REVIEWED_UNRECOGNISED: &[&str] = &[];
     for u in &unrecognised {
         if !REVIEWED_UNRECOGNISED.contains(&u.as_str()) {
-            cx.out.violation(&format!("C16:source:shape-not-recognised:{}", u), "pattern not recognised: the match arm of this command is written in a form the shape translator does not read, so this field of its descriptor is no longer compared with the other parser / the model's shape table (review the arm, then extend the translator or the reviewed list)",
-                json!({"field": u, "reviewed_list": REVIEWED_UNRECOGNISED}));
+            let cmd = u.split(':').nth(1).unwrap_or("");
+            let why = construct.get(cmd).cloned().unwrap_or_else(|| "(no detail recorded)".to_string());
+            cx.out.violation(&format!("C16:source:shape-not-recognised:{}", u), &format!("pattern not recognised: the match arm of this command is written in a form the shape translator does not read, so this field of its descriptor is no longer compared with the other parser / the model's shape table (review the arm, then extend the translator or the reviewed list). Construct: {}", why),
+                json!({"field": u, "construct": why, "reviewed_list": REVIEWED_UNRECOGNISED}));
         }
     }
     cx.out.count_n("shape:fields-compared", compared);
@@ -1947,6 +2109,7 @@ fn shape_check(cx: &mut Ctx) {
         "model_rows": {"resp": model["R"].len(), "lua": model["L"].len(), "families": model["F"].len()},
         "fields_compared": compared,
         "unrecognised": unrecognised,
+        "read_through": {"from_resp": sim.notes, "from_resp_zero_copy": zc.notes, "parse_lua_command_bytes": lua.notes},
         "sample_rows": {"SET": a.get("SET"), "lua:ZADD": by_name(&lua.rows).get("ZADD"), "ACL.LOG": a.get("ACL.LOG")},
     }));
 }
@@ -2309,6 +2472,8 @@ pub fn run(a: &Args) {
     float_sweep(&mut cx, &mut rng, (a.n / 4).max(200));
     int_sweep(&mut cx, &mut rng, (a.n / 8).max(200));
     float_reply_sweep(&mut cx, &mut rng, (a.n / 40).max(200));
+    float_arg_sweep(&mut cx, &mut rng, (a.n / 40).max(200));
+    redis_table_fields(&mut cx);
     luaconv(&mut cx, &mut rng, (a.n / 10).max(100));
     lua_args(&mut cx);
     eval_plumbing(&mut cx);
